@@ -201,6 +201,7 @@ pub fn step(s: &J) -> String {
         }
         "select" => format!("select {}", items(&s["items"])),
         "derive" => format!("derive {}", items(&s["items"])),
+        "loop" => format!("loop ({})", pipe(&s["pipe"], " | ")),
         "exclude" => {
             let cs: Vec<String> = s["cols"].as_array().map(|a| a.iter().map(expr).collect()).unwrap_or_default();
             format!("select !{{{}}}", cs.join(", "))
